@@ -33,6 +33,18 @@ def _warm():
     s.probability_distribution  # noqa: B018
     emu.Sampler(c, lw.State([1, 1]), backend="slos").probability_distribution  # noqa: B018
     lw.Display(c)
+    # thewalrus compiles its permanent routine on the first matrix of four or
+    # more photons, per dtype and memory layout: do it once in the parent so
+    # that no forked run pays for it
+    import numpy as np  # noqa: PLC0415
+    from thewalrus import perm  # noqa: PLC0415
+    for dt in (complex, float):
+        a = np.ones((4, 4), dtype=dt)
+        perm(a)
+        perm(np.asfortranarray(a))
+        perm(np.ones((8, 8), dtype=dt)[::2, ::2])
+    u = lw.Unitary(lw.random_unitary(4, seed=1))
+    emu.Simulator(u).simulate(lw.State([1, 1, 1, 1]), [lw.State([1, 1, 1, 1])])
 
 
 def run_seed(verif_seed: int, profile: str, i: int) -> int:
